@@ -4,10 +4,14 @@ Monitor shape: (a) substring scan of EDB.serialize() and of every Token.serializ
 (>= 8 random bytes) and - except SSE-2 - every stored identifier (8 or 16 random bytes); (b) pairwise distinctness
 of all ciphertext-bearing entries of one index (split into single-ciphertext units where a scheme concatenates
 ciphertexts), on databases that repeat one identifier under every keyword; (c) disjointness of the ciphertext
-entries of two indexes built from the same (key, database).
+entries of two indexes built from the same (key, database) - also when the host re-seeds the global `random`
+generator with one value before each build, and when the builds happen in two workers forked after a first build.
 False-alarm bound for (a): index <= 2e5 bytes, <= 400 strings of >= 8 random bytes: <= 2e5*400*2^-64 < 1e-11 per case.
 """
 import copy
+import hashlib
+import os
+import random as global_random
 
 from vlib import gen, sse
 from vlib.common import exc_site
@@ -64,11 +68,21 @@ def run_case(scheme, cid, cfg, cls, db, acc, rng):
     case = sse.case_desc(scheme, cid, cfg, cls, db)
     acc.count("cases")
     acc.count("cases." + short)
+    # every fourth case: the host program re-seeds the global `random` generator with the same value before each
+    # of the two builds (a reproducible experiment script); the ciphertexts must differ all the same
+    reseed = rng.getrandbits(32) if rng.random() < 0.25 else None
     try:
         sch = L.SSEScheme(cfg)
         key = sch.KeyGen()
+        if reseed is not None:
+            acc.count("builds_after_reseeding_global_random", 2)
+            global_random.seed(reseed)
         edb1 = sch.EDBSetup(key, copy.deepcopy(db))
+        if reseed is not None:
+            global_random.seed(reseed)
         edb2 = sch.EDBSetup(key, copy.deepcopy(db))
+        if reseed is not None:
+            global_random.seed()
         raw1 = edb1.serialize()
     except Exception as e:
         acc.count("setup_failed")
@@ -124,11 +138,79 @@ def run_case(scheme, cid, cfg, cls, db, acc, rng):
         acc.count("entries_compared_across", len(u1) + len(u2))
         common = set(u1) & set(u2)
         if common:
-            acc.violation(f"{short}:ciphertexts-repeat-across-setups",
+            acc.violation(f"{short}:ciphertexts-repeat-across-setups" + (":after-reseed" if reseed is not None else ""),
                           f"{scheme}: {len(common)} of {len(u1)} ciphertext entries are identical in two indexes built "
-                          f"from the same key and database", case)
+                          f"from the same key and database"
+                          + (" (the global random generator was re-seeded with the same value before each build)"
+                             if reseed is not None else ""), case)
             return True
     return True
+
+
+def forked_units(scheme, sch, key, db):
+    """Build the index in a forked child; returns the set of 16-byte digests of its ciphertext units (None: failed)."""
+    r, w = os.pipe()
+    pid = os.fork()
+    if pid == 0:
+        try:
+            os.close(r)
+            units = cipher_units(scheme, sch, sch.EDBSetup(key, copy.deepcopy(db)))
+            out = b"".join(hashlib.blake2b(u, digest_size=16).digest() for u in units)
+            os.write(w, len(out).to_bytes(4, "big") + out)
+        finally:
+            os._exit(0)
+    os.close(w)
+    data = b""
+    while True:
+        chunk = os.read(r, 1 << 16)
+        if not chunk:
+            break
+        data += chunk
+    os.close(r)
+    os.waitpid(pid, 0)
+    if len(data) < 4 or int.from_bytes(data[:4], "big") != len(data) - 4:
+        return None
+    return [data[i:i + 16] for i in range(4, len(data), 16)]
+
+
+def run_forked(scheme, acc, ctx, rounds):
+    """Two worker processes forked AFTER the parent's first build encrypt the same (key, database)."""
+    short = gen.SHORT[scheme]
+    L = sse.loader(scheme)
+    rng = ctx.rng
+    done = 0
+    tries = 0
+    while done < rounds and tries < rounds * 6 and not ctx.out_of_time():
+        tries += 1
+        cid, cfg = gen.pick_config(scheme, rng, tries)
+        cfg["param_identifier_size"] = max(8, cfg.get("param_identifier_size", 8)) if "param_identifier_size" in cfg \
+            else cfg.get("param_identifier_size", 8)
+        try:
+            db, info = gen.make_db(rng, scheme, cfg, rng.choice(["zipf", "many-singletons", "shared-id"]), 12)
+            sch = L.SSEScheme(cfg)
+            key = sch.KeyGen()
+            parent = cipher_units(scheme, sch, sch.EDBSetup(key, copy.deepcopy(db)))
+        except Exception:
+            continue
+        a = forked_units(scheme, sch, key, db)
+        b = forked_units(scheme, sch, key, db)
+        if a is None or b is None:
+            acc.count("fork_failed")
+            continue
+        done += 1
+        acc.count("forked_build_pairs")
+        acc.count("cases")
+        acc.count("cases." + short)
+        acc.add("distinct", sse.case_fp(scheme, "fork-" + cid, db))
+        p = [hashlib.blake2b(u, digest_size=16).digest() for u in parent]
+        common = (set(a) & set(b)) | (set(a) & set(p)) | (set(b) & set(p))
+        acc.count("entries_compared_across_forks", len(a) + len(b) + len(p))
+        if common:
+            acc.violation(f"{short}:ciphertexts-repeat-across-forked-workers",
+                          f"{scheme}: {len(common)} of {len(a)} ciphertext entries coincide between indexes built from "
+                          f"the same key and database in the parent and / or two worker processes forked after the "
+                          f"parent's first build", sse.case_desc(scheme, cid, cfg, "forked", db))
+            return
 
 
 def run_shard(spec, acc, ctx):
@@ -136,6 +218,8 @@ def run_shard(spec, acc, ctx):
     rng = ctx.rng
     i = spec["index"]
     first = True
+    if scheme != "CGKO06.SSE2" and spec["index"] == 0:
+        run_forked(scheme, acc, ctx, 3 if ctx.tier == "quick" else 25)
     while not ctx.out_of_time():
         cid, cfg = gen.pick_config(scheme, rng, i)
         i += spec["of"]
@@ -176,6 +260,17 @@ def run_shard(spec, acc, ctx):
 
 
 def replay(case, acc, ctx):
+    if case.get("db_class") == "forked":
+        scheme, cfg, db = case["scheme"], case["cfg"], case["db"]
+        sch = sse.loader(scheme).SSEScheme(cfg)
+        key = sch.KeyGen()
+        p = {hashlib.blake2b(u, digest_size=16).digest()
+             for u in cipher_units(scheme, sch, sch.EDBSetup(key, copy.deepcopy(db)))}
+        a, b = forked_units(scheme, sch, key, db), forked_units(scheme, sch, key, db)
+        if a is not None and b is not None and ((set(a) & set(b)) | (set(a) & p) | (set(b) & p)):
+            acc.violation(f"{gen.SHORT[scheme]}:ciphertexts-repeat-across-forked-workers", "replayed", case)
+        acc.count("replayed")
+        return
     run_case(case["scheme"], case.get("cfg_id", "replay"), case["cfg"], case.get("db_class", "?"), case["db"], acc,
              ctx.rng)
     acc.count("replayed")
@@ -192,6 +287,8 @@ def finish(m, tier, seed):
             inc.append(f"{short}: only {per[short]['cases']} cases")
     if c.get("entries_compared_within", 0) < 10 ** 4:
         inc.append(f"only {c.get('entries_compared_within', 0)} ciphertext entries compared")
+    if c.get("forked_build_pairs", 0) < 8 or c.get("builds_after_reseeding_global_random", 0) < 200:
+        inc.append("forked / re-seeded builds did not run")
     if "shared-id" not in m["sets"].get("classes", []):
         inc.append("shared-identifier databases never generated")
     cov = {
@@ -207,6 +304,9 @@ def finish(m, tier, seed):
         "tokens_scanned": c.get("tokens_scanned", 0),
         "ciphertext_entries_compared_within_one_index": c.get("entries_compared_within", 0),
         "ciphertext_entries_compared_across_two_indexes": c.get("entries_compared_across", 0),
+        "builds_after_reseeding_global_random": c.get("builds_after_reseeding_global_random", 0),
+        "forked_build_pairs": c.get("forked_build_pairs", 0),
+        "ciphertext_entries_compared_across_forked_workers": c.get("entries_compared_across_forks", 0),
         "setup_failed": c.get("setup_failed", 0),
     }
     return {"coverage": cov, "inconclusive": inc,
